@@ -469,7 +469,8 @@ func storeDomain(lines []string) []string {
 				outer = append(outer, e)
 				if !nested {
 					nested = true
-					if ierr := bus.Replay(ctx, eb.OffsetOldest, func(e2 *eb.StoredEvent) error { inner = append(inner, e2); return nil }); ierr != nil {
+					// the inner replay starts after the event the outer one is delivering right now
+					if ierr := bus.Replay(ctx, e.Offset, func(e2 *eb.StoredEvent) error { inner = append(inner, e2); return nil }); ierr != nil {
 						return ierr
 					}
 				}
